@@ -91,38 +91,42 @@ theorem C08_legacy_tables (units : List Legacy.LUnit) (s : List Step) (u : Nat) 
 
 /-! ## new subsystem
 
-A decorator of the new subsystem is served iff its listener got registered at start-up (`New.registered`).  Today a
-function whose `@webhook_trigger` names a webhook id that already has a handler FAILS to start and loses ALL its
-triggers (finding C08-F1), so the full statement ("every decorator of every function") does not hold; it holds
-exactly for the registered decorators (`_partial`), and `C08_new_cex_shared_webhook` is the witness. -/
+A decorator of the new subsystem is served iff its listener got registered at start-up (`New.registered`).  The
+machine takes deviation flags: `New.Flags.preFix` is the code before the repair of finding C08-F1 (a function whose
+`@webhook_trigger` names a webhook id that already has a handler FAILS to start and loses ALL its triggers),
+`New.Flags.current` the repaired code (the decorators of one webhook id share one Home Assistant registration).
+The `fl`-theorems hold for every flag value and speak about registered decorators; at `Flags.current` EVERY decorator
+is registered (`C08_new_all_registered`), which gives the full statements `C08_new`, `C08_new_invariant_full`,
+`C08_new_prefix_full`; `C08_new_regress_shared_webhook` shows the pre-fix shape deviating. -/
 
-/-- **Callback-queue invariant, every schedule (new).** -/
-theorem C08_new_invariant (fs : List (List Dec)) (s : List Step) (i : Nat) (d : Dec)
-    (hd : fs.flatten[i]? = some d) (hreg : New.registered fs i d) :
-    New.startedOf (New.exec fs s) i ++ New.pendingList d i (New.exec fs s).ready
-      = Spec.expected d (New.exec fs s).log := by
-  have h := New.inv_exec fs s
+/-- **Callback-queue invariant, every schedule (new, every flag value).** -/
+theorem C08_new_invariant (fl : New.Flags) (fs : List (List Dec)) (s : List Step) (i : Nat) (d : Dec)
+    (hd : fs.flatten[i]? = some d) (hreg : New.registered fl fs i d) :
+    New.startedOf (New.exec fl fs s) i ++ New.pendingList d i (New.exec fl fs s).ready
+      = Spec.expected d (New.exec fl fs s).log := by
+  have h := New.inv_exec fl fs s
   exact h.1.2.1 i d hd (by rw [h.2]; exact hreg)
 
-/-- **Exactly once, in order (new) – for every decorator whose function started.** -/
-theorem C08_new_partial (fs : List (List Dec)) (s : List Step) (hq : New.Quiescent (New.exec fs s))
-    (i : Nat) (d : Dec) (hd : fs.flatten[i]? = some d) (hreg : New.registered fs i d) :
-    New.startedOf (New.exec fs s) i = Spec.expected d (New.exec fs s).log := by
-  have h := C08_new_invariant fs s i d hd hreg
+/-- **Exactly once, in order (new, every flag value) – for every decorator whose function started.** -/
+theorem C08_new_partial (fl : New.Flags) (fs : List (List Dec)) (s : List Step)
+    (hq : New.Quiescent (New.exec fl fs s))
+    (i : Nat) (d : Dec) (hd : fs.flatten[i]? = some d) (hreg : New.registered fl fs i d) :
+    New.startedOf (New.exec fl fs s) i = Spec.expected d (New.exec fl fs s).log := by
+  have h := C08_new_invariant fl fs s i d hd hreg
   rw [hq] at h
   simpa [New.pendingList] using h
 
-/-- **Safety at every instant (new).** -/
-theorem C08_new_prefix (fs : List (List Dec)) (s : List Step) (i : Nat) (d : Dec)
-    (hd : fs.flatten[i]? = some d) (hreg : New.registered fs i d) :
-    New.startedOf (New.exec fs s) i <+: Spec.expected d (New.exec fs s).log :=
-  ⟨_, C08_new_invariant fs s i d hd hreg⟩
+/-- **Safety at every instant (new, every flag value).** -/
+theorem C08_new_prefix (fl : New.Flags) (fs : List (List Dec)) (s : List Step) (i : Nat) (d : Dec)
+    (hd : fs.flatten[i]? = some d) (hreg : New.registered fl fs i d) :
+    New.startedOf (New.exec fl fs s) i <+: Spec.expected d (New.exec fl fs s).log :=
+  ⟨_, C08_new_invariant fl fs s i d hd hreg⟩
 
-/-- **Nothing is ever started for a decorator that is not registered (new).** -/
-theorem C08_new_unregistered (fs : List (List Dec)) (s : List Step) (i : Nat) (d : Dec)
-    (hd : fs.flatten[i]? = some d) (hreg : ¬ New.registered fs i d) :
-    New.startedOf (New.exec fs s) i = [] := by
-  have h := New.inv_exec fs s
+/-- **Nothing is ever started for a decorator that is not registered (new, every flag value).** -/
+theorem C08_new_unregistered (fl : New.Flags) (fs : List (List Dec)) (s : List Step) (i : Nat) (d : Dec)
+    (hd : fs.flatten[i]? = some d) (hreg : ¬ New.registered fl fs i d) :
+    New.startedOf (New.exec fl fs s) i = [] := by
+  have h := New.inv_exec fl fs s
   unfold New.startedOf
   rw [List.map_eq_nil_iff, List.filter_eq_nil_iff]
   intro r hr hdec
@@ -135,59 +139,79 @@ theorem C08_new_unregistered (fs : List (List Dec)) (s : List Step) (i : Nat) (d
   rw [← h.2, ← hdec]
   exact hmem
 
-/-- **Which decorators are registered (new).**  Every function whose decorators all start is registered completely:
-when no `@webhook_trigger` id of the function is already taken … in particular every function without webhook
-triggers, and every configuration whose webhook ids are pairwise different. -/
-theorem C08_new_registered_of_start (i0 : Nat) (f : List Dec) (n n' : Table)
-    (hs : New.startDecs i0 f n = some n') (j : Nat) (d : Dec) (hj : f[j]? = some d) :
-    (i0 + j) ∈ n' d.kind d.key := by
-  induction f generalizing i0 n j with
-  | nil => simp at hj
-  | cons d0 rest ih =>
-    simp only [New.startDecs] at hs
-    split at hs
-    · cases hs
-    · have mono : ∀ (l : List Dec) (i : Nat) (m m' : Table), New.startDecs i l m = some m' →
-          ∀ x k key, x ∈ m k key → x ∈ m' k key := by
-        intro l
-        induction l with
-        | nil => intro i m m' h x k key hx; simp only [New.startDecs, Option.some.injEq] at h; subst h; exact hx
-        | cons a r ihr =>
-          intro i m m' h x k key hx
-          simp only [New.startDecs] at h
-          split at h
-          · cases h
-          · exact ihr (i + 1) _ m' h x k key ((Table.mem_add m _ _ _ _ _ _).2 (Or.inl hx))
-      cases j with
-      | zero =>
-        simp only [List.getElem?_cons_zero, Option.some.injEq] at hj
-        subst hj
-        apply mono rest (i0 + 1) _ n' hs
-        exact (Table.mem_add n _ _ _ _ _ _).2 (Or.inr ⟨rfl, rfl, rfl⟩)
-      | succ j =>
-        have := ih (i0 + 1) _ hs j (by simpa using hj)
-        have e : i0 + (j + 1) = i0 + 1 + j := by omega
-        rw [e]; exact this
+/-- **Which decorators are registered (new, every flag value).**  Every function whose decorators all start is
+registered completely – pre-fix: when no `@webhook_trigger` id of the function is already taken. -/
+theorem C08_new_registered_of_start (fl : New.Flags) (i0 : Nat) (f : List Dec) (n n' : Table)
+    (hs : New.startDecs fl i0 f n = some n') (j : Nat) (d : Dec) (hj : f[j]? = some d) :
+    (i0 + j) ∈ n' d.kind d.key :=
+  New.startDecs_mem fl i0 f n n' hs j d hj
 
-/-- **Witness of finding C08-F1 (new).**  Two functions use webhook id `"h"`; the second one also has
-`@event_trigger("e")`.  The event `e` qualifies for that trigger, yet nothing is ever started for it (the whole
-function failed to start), while the legacy machine on the same configuration starts the run. -/
-theorem C08_new_cex_shared_webhook :
+/-- **Repaired code: every decorator of every function is registered** – whatever webhook ids are shared. -/
+theorem C08_new_all_registered (fs : List (List Dec)) (i : Nat) (d : Dec) (hd : fs.flatten[i]? = some d) :
+    New.registered New.Flags.current fs i d := by
+  have := New.setupFuncs_current_mem fs 0 Table.empty i d hd
+  simpa [New.registered, New.init] using this
+
+/-- **Listener tables of the repaired code.**  After start-up (and for ever) decorator `i` listens under a key
+exactly when it is a decorator of that kind with that key – webhook ids included, several decorators per id – and
+no decorator is listed twice. -/
+theorem C08_new_tables (fs : List (List Dec)) (s : List Step) (i : Nat) (k : Kind) (key : String) :
+    (i ∈ (New.exec New.Flags.current fs s).listeners k key ↔
+      ∃ d, fs.flatten[i]? = some d ∧ d.kind = k ∧ d.key = key) ∧
+    ((New.exec New.Flags.current fs s).listeners k key).Nodup := by
+  have h := New.inv_exec New.Flags.current fs s
+  refine ⟨⟨fun hi => h.1.1.2 i k key hi, ?_⟩, h.1.1.1 k key⟩
+  rintro ⟨d, hd, rfl, rfl⟩
+  rw [h.2]
+  exact C08_new_all_registered fs i d hd
+
+/-- **Callback-queue invariant for EVERY decorator (new, current code).** -/
+theorem C08_new_invariant_full (fs : List (List Dec)) (s : List Step) (i : Nat) (d : Dec)
+    (hd : fs.flatten[i]? = some d) :
+    New.startedOf (New.exec New.Flags.current fs s) i ++ New.pendingList d i (New.exec New.Flags.current fs s).ready
+      = Spec.expected d (New.exec New.Flags.current fs s).log :=
+  C08_new_invariant _ fs s i d hd (C08_new_all_registered fs i d hd)
+
+/-- **Exactly once, in order (new) – FULL statement**: for every decorator of every function, shared webhook ids
+included, once the callbacks have run the runs started are precisely the qualifying occurrences, in order. -/
+theorem C08_new (fs : List (List Dec)) (s : List Step) (hq : New.Quiescent (New.exec New.Flags.current fs s))
+    (i : Nat) (d : Dec) (hd : fs.flatten[i]? = some d) :
+    New.startedOf (New.exec New.Flags.current fs s) i = Spec.expected d (New.exec New.Flags.current fs s).log :=
+  C08_new_partial _ fs s hq i d hd (C08_new_all_registered fs i d hd)
+
+/-- **Safety at every instant for every decorator (new, current code).** -/
+theorem C08_new_prefix_full (fs : List (List Dec)) (s : List Step) (i : Nat) (d : Dec)
+    (hd : fs.flatten[i]? = some d) :
+    New.startedOf (New.exec New.Flags.current fs s) i <+: Spec.expected d (New.exec New.Flags.current fs s).log :=
+  ⟨_, C08_new_invariant_full fs s i d hd⟩
+
+/-- **Regression witness of finding C08-F1 (fixed).**  Two functions use webhook id `"h"`; the second one also has
+`@event_trigger("e")`.  Pre-fix shape: the event `e` qualifies for that trigger and the webhook request for both
+webhook triggers, yet nothing is ever started for the second function (it failed to start).  Repaired shape: the
+event starts its run and the request starts one run for EACH of the two webhook triggers – as the legacy machine
+does on the same configuration. -/
+theorem C08_new_regress_shared_webhook :
     let w1 : Dec := { kind := .webhook, key := "h", filt := Option.none, kwargs := [] }
     let w2 : Dec := { kind := .webhook, key := "h", filt := Option.none, kwargs := [] }
     let e2 : Dec := { kind := .event, key := "e", filt := Option.none, kwargs := [] }
     let fs := [[w1], [e2, w2]]
-    let s : List Step := [.fire (.event "e" []), .take 0, .take 1]
-    (Spec.expected e2 (New.exec fs s).log).length = 1 ∧ (New.exec fs s).ready.length = 0 ∧
-    New.startedOf (New.exec fs s) 1 = [] ∧
-    (Legacy.startedOf (Legacy.exec (Legacy.allUnits fs) s) 1 .event).length = 1 := by
+    let s : List Step := [.fire (.event "e" []), .fire (.webhook "h" true .dnil []), .take 0, .take 0, .take 0]
+    let pre := New.exec New.Flags.preFix fs s
+    let cur := New.exec New.Flags.current fs s
+    (Spec.expected e2 pre.log).length = 1 ∧ (Spec.expected w2 pre.log).length = 1 ∧ pre.ready.length = 0 ∧
+    New.startedOf pre 1 = [] ∧ New.startedOf pre 2 = [] ∧ (New.startedOf pre 0).length = 1 ∧
+    cur.ready.length = 0 ∧ (New.startedOf cur 0).length = 1 ∧ (New.startedOf cur 1).length = 1 ∧
+    (New.startedOf cur 2).length = 1 ∧
+    (Legacy.startedOf (Legacy.exec (Legacy.allUnits fs) (s ++ [.take 1, .take 1])) 0 .webhook).length = 1 ∧
+    (Legacy.startedOf (Legacy.exec (Legacy.allUnits fs) (s ++ [.take 1, .take 1])) 1 .event).length = 1 ∧
+    (Legacy.startedOf (Legacy.exec (Legacy.allUnits fs) (s ++ [.take 1, .take 1])) 1 .webhook).length = 1 := by
   decide
 
 /-- **No callback stays pending for ever (new).** -/
-theorem C08_new_complete (fs : List (List Dec)) (s : List Step) :
-    ∃ s', New.Quiescent (New.exec fs (s ++ s')) ∧ (New.exec fs (s ++ s')).log = (New.exec fs s).log := by
-  have h := New.takeN fs.flatten (New.exec fs s).ready.length (New.exec fs s)
-  refine ⟨List.replicate (New.exec fs s).ready.length (Step.take 0), ?_, ?_⟩
+theorem C08_new_complete (fl : New.Flags) (fs : List (List Dec)) (s : List Step) :
+    ∃ s', New.Quiescent (New.exec fl fs (s ++ s')) ∧ (New.exec fl fs (s ++ s')).log = (New.exec fl fs s).log := by
+  have h := New.takeN fs.flatten (New.exec fl fs s).ready.length (New.exec fl fs s)
+  refine ⟨List.replicate (New.exec fl fs s).ready.length (Step.take 0), ?_, ?_⟩
   · unfold New.Quiescent
     unfold New.exec at h ⊢
     rw [List.foldl_append, h.1]
@@ -252,9 +276,9 @@ theorem C08_independent_legacy (units : List Legacy.LUnit) (s : List Step) :
   Legacy.eraseFin_foldl units s (Legacy.init units)
 
 /-- **Independence (new).** -/
-theorem C08_independent_new (fs : List (List Dec)) (s : List Step) :
-    New.eraseFin (New.exec fs s) = New.exec fs (s.filter Legacy.notFinish) :=
-  New.eraseFin_foldl fs.flatten s (New.init fs)
+theorem C08_independent_new (fl : New.Flags) (fs : List (List Dec)) (s : List Step) :
+    New.eraseFin (New.exec fl fs s) = New.exec fl fs (s.filter Legacy.notFinish) :=
+  New.eraseFin_foldl fs.flatten s (New.init fl fs)
 
 /-! ## event.fire and contexts -/
 
@@ -293,11 +317,11 @@ theorem C08_parent_legacy (units : List Legacy.LUnit) (s : List Step) (r : Nat) 
     | _ => simp [h1]
 
 /-- **Parent contexts (new).** -/
-theorem C08_parent_new (fs : List (List Dec)) (s : List Step) (r : Nat) (run : Run)
-    (hr : (New.exec fs s).started[r]? = some run) (ek : EmitKind) (name : String) (kw : Dict) :
+theorem C08_parent_new (fl : New.Flags) (fs : List (List Dec)) (s : List Step) (r : Nat) (run : Run)
+    (hr : (New.exec fl fs s).started[r]? = some run) (ek : EmitKind) (name : String) (kw : Dict) :
     run.ctx.parent = Spec.parentOf run.args ∧
-    (eventFire (New.exec fs s).t2c r ek name kw).ctx = Spec.fireCtx kw (some run.ctx) := by
-  have h := New.ctxInv_exec fs s
+    (eventFire (New.exec fl fs s).t2c r ek name kw).ctx = Spec.fireCtx kw (some run.ctx) := by
+  have h := New.ctxInv_exec fl fs s
   refine ⟨h.2 r run hr, ?_⟩
   have h1 := h.1 r
   rw [hr] at h1
@@ -326,7 +350,22 @@ example :
     (Legacy.startedOf (Legacy.exec units s) 0 .event).length = 2 ∧
     (Legacy.startedOf (Legacy.exec units s) 1 .event).length = 3 ∧
     (Legacy.startedOf (Legacy.exec units s) 0 .mqtt).length = 1 ∧
-    (New.startedOf (New.exec [[d0, d1, d2]] s) 0).length = 2 := by
+    (New.startedOf (New.exec New.Flags.current [[d0, d1, d2]] s) 0).length = 2 ∧
+    (New.startedOf (New.exec New.Flags.preFix [[d0, d1, d2]] s) 0).length = 2 := by
+  decide
+
+/-- non-vacuity of the full statement with a shared webhook id: three decorators on id `"h"` in two functions, two
+requests, a quiescent schedule – each decorator gets both requests, in order -/
+example :
+    let w : Nat → Dec := fun t => { kind := .webhook, key := "h", filt := Option.none, kwargs := [("tag", .int t)] }
+    let fs := [[w 0, w 1], [w 2]]
+    let s : List Step := [.fire (.webhook "h" true (.dcons "a" (.int 1) .dnil) []), .take 0,
+                          .fire (.webhook "h" false .none [("a", .str "2")]), .take 0, .take 0, .take 0, .take 0, .take 0]
+    (New.exec New.Flags.current fs s).ready.length = 0 ∧
+    (New.startedOf (New.exec New.Flags.current fs s) 0).length = 2 ∧
+    (New.startedOf (New.exec New.Flags.current fs s) 1).length = 2 ∧
+    (New.startedOf (New.exec New.Flags.current fs s) 2).length = 2 ∧
+    (New.exec New.Flags.current fs s).listeners .webhook "h" = [0, 1, 2] := by
   decide
 
 end PsModel.C08
